@@ -56,11 +56,13 @@ def c01get (cfg : Cfg) (rops : List Op) (rt : RType) (n : String) (res : String)
   if res = want then none else some s!"C01.lookup: {repr rt}/{n}: expected {want}, got {res}"
 
 /-- C02 on one response step. `pre` = observation before, `o` = after. `sendOk` = requests reach the wire. -/
-def c02 (pre o : Obs) (rt : Option RType) (version nonce : String) (decodes : Bool) (sendOk : Bool) : Option String :=
+def c02 (pre o : Obs) (rt : Option RType) (version nonce : String) (decodes : Bool) (sendOk : Bool)
+    (everSubscribed : Bool := true) : Option String :=
   match rt with
   | none => if o.reqs.isEmpty && sameState pre o then none else some "C02.unknown_ignored: a response of unknown type was acknowledged or applied"
   | some rt =>
-    match pre.interest rt with
+    -- whether the type was ever subscribed is the history's knowledge (start-up, lookups), not the client's belief
+    match (if everSubscribed then some ((pre.interest rt).getD []) else none) with
     | none => if o.reqs.isEmpty && sameState pre o then none else some "C02.unknown_ignored: a response of a never-subscribed type was acknowledged or applied"
     | some ws =>
       let stateOk : Option String :=
